@@ -1,10 +1,13 @@
 /-
   Proofs/C03Pass2.lean — one pass of `NestedEvent.trigger_nested`, continued: P3 (innermost first, nothing of the same
-  state or an ancestor after an execution, completeness) and the value the pass returns (P5), on the sequence of
-  offers read off the ghost segment; and, for machines whose transitions are all declared on the machine, the first
-  half of P2: every executed source was active when the event began.
+  state or an ancestor after an execution, completeness up to states exited earlier in the event) and the value the
+  pass returns (`triggerNested_result`: True iff some transition of the call executed), on the sequence of offers read
+  off the ghost segment; and, for machines whose transitions are all declared on the machine, both halves of P2
+  (every executed source was active when the event began — `C03_P2_active_at_start` — and has not been exited since —
+  `C03_P2_global_only`, via `event_data.exited_states`) and P5 at full strength (`C03_P5_global_only`).
 -/
 import Proofs.C03Pass
+import Proofs.C02
 
 namespace TM
 open C02 C03
@@ -175,11 +178,12 @@ theorem nchangeState_sil (hC : NoCmds sc) (scope : Scope) (x : Ctx) (dest : SPat
   · simp only [Res.state?, Option.some.injEq] at h; subst h; exact Adds.refl _
   · simp [Res.state?] at h
   · rename_i r _
+    have q0 : Adds ts [] s ({ s with exited := s.exited ++ r.exitNames } : NSt) := Adds.of_glog rfl
     rcases bind_state h with ⟨e, he⟩ | ⟨a, s1, he, h1⟩
-    · exact exitAll_sil sub sc cfg hC x _ s s' (by rw [he]; rfl)
-    · have q1 : Adds ts [] s s1 := exitAll_sil sub sc cfg hC x _ s s1 (by rw [he]; rfl)
+    · exact q0.sil_r (exitAll_sil sub sc cfg hC x _ _ s' (by rw [he]; rfl))
+    · have q1 : Adds ts [] _ s1 := exitAll_sil sub sc cfg hC x _ _ s1 (by rw [he]; rfl)
       have q2 : Adds ts [] _ s' := enterAll_sil sub sc cfg hC x _ _ s' h1
-      exact q1.sil_r ((Adds.of_glog (s := s1) (s' := { s1 with conf := r.tree }) rfl).sil_r q2)
+      exact q0.sil_r (q1.sil_r ((Adds.of_glog (s := s1) (s' := { s1 with conf := r.tree }) rfl).sil_r q2))
 
 /-- `Transition.execute` for `tr` opens exactly one offer, executed iff it returns `True` -/
 theorem nexecute_post2 (hC : NoCmds sc) (scope : Scope) (x : Ctx) (tr : TRef) (t : NTrans) (s : NSt) :
@@ -225,6 +229,153 @@ theorem nexecute_post2 (hC : NoCmds sc) (scope : Scope) (x : Ctx) (tr : TRef) (t
     (fun s' h => ⟨true, a6.sil_r h⟩) ?_
   intro _ s7 h7
   exact a6.sil_r h7
+
+end
+
+theorem Post.and {α : Type} {P1 P2 : α → NSt → Prop} {E1 E2 : NSt → Prop} {r : NR α} (h1 : Post P1 E1 r)
+    (h2 : Post P2 E2 r) : Post (fun a s => P1 a s ∧ P2 a s) (fun s => E1 s ∧ E2 s) r := by
+  cases r with
+  | ok a s1 => exact ⟨h1, h2⟩
+  | err e s1 => exact ⟨h1, h2⟩
+  | oof => trivial
+
+/-! ### `event_data.exited_states` only grows while an event is processed; callbacks do not touch it -/
+
+/-- everything exited so far is still recorded -/
+def ExSub (s s' : NSt) : Prop := ∀ q ∈ s.exited, q ∈ s'.exited
+
+theorem ExSub.refl (s : NSt) : ExSub s s := fun _ h => h
+
+theorem ExSub.trans {a b c : NSt} (h1 : ExSub a b) (h2 : ExSub b c) : ExSub a c := fun q h => h2 q (h1 q h)
+
+theorem ExSub.of_eq {s s' : NSt} (h : s'.exited = s.exited) : ExSub s s' := fun q hq => by rw [h]; exact hq
+
+section
+variable (sub : NSub) (sc : Script) (cfg : NCfg)
+
+theorem ninvoke_exited (hC : NoCmds sc) (slot : Slot) (x : Ctx) (c : Nat) (s s' : NSt)
+    (h : (ninvoke sub sc cfg slot x c s).state? = some s') : s'.exited = s.exited := by
+  simp only [ninvoke, hC c, nrunCmds] at h
+  cases ho : (sc c (s.count c)).out <;> simp only [ho, Res.state?, Option.some.injEq] at h <;> subst h <;> rfl
+
+theorem ncallbacks_exited (hC : NoCmds sc) (slot : Slot) (x : Ctx) : ∀ (cbs : List Nat) (s s' : NSt),
+    (ncallbacks sub sc cfg slot x cbs s).state? = some s' → s'.exited = s.exited
+  | [], s, s', h => by simp only [ncallbacks, Res.state?, Option.some.injEq] at h; subst h; rfl
+  | c :: cs, s, s', h => by
+    unfold ncallbacks at h
+    rcases bind_state h with ⟨e, he⟩ | ⟨a, s1, he, h1⟩
+    · exact ninvoke_exited sub sc cfg hC slot x c s s' (by rw [he]; rfl)
+    · rw [ncallbacks_exited hC slot x cs s1 s' h1]
+      exact ninvoke_exited sub sc cfg hC slot x c s s1 (by rw [he]; rfl)
+
+theorem nevalConds_exited (hC : NoCmds sc) (x : Ctx) : ∀ (cs : List Cond) (s s' : NSt),
+    (nevalConds sub sc cfg x cs s).state? = some s' → s'.exited = s.exited
+  | [], s, s', h => by simp only [nevalConds, Res.state?, Option.some.injEq] at h; subst h; rfl
+  | c :: cs, s, s', h => by
+    unfold nevalConds at h
+    rcases bind_state h with ⟨e, he⟩ | ⟨b, s1, he, h1⟩
+    · exact ninvoke_exited sub sc cfg hC _ x c.cb s s' (by rw [he]; rfl)
+    · have e1 := ninvoke_exited sub sc cfg hC _ x c.cb s s1 (by rw [he]; rfl)
+      split at h1
+      · rw [nevalConds_exited hC x cs s1 s' h1, e1]
+      · simp only [Res.state?, Option.some.injEq] at h1; subst h1; exact e1
+
+theorem exitAll_exited (hC : NoCmds sc) (x : Ctx) : ∀ (fs : List Found) (s s' : NSt),
+    (exitAll sub sc cfg x fs s).state? = some s' → s'.exited = s.exited
+  | [], s, s', h => by simp only [exitAll, Res.state?, Option.some.injEq] at h; subst h; rfl
+  | f :: fs, s, s', h => by
+    unfold exitAll at h
+    rcases bind_state h with ⟨e, he⟩ | ⟨a, s1, he, h1⟩
+    · exact ncallbacks_exited sub sc cfg hC _ x _ (s.emitG (.exit f.path)) s' (by rw [he]; rfl)
+    · rw [exitAll_exited hC x fs s1 s' h1]
+      exact ncallbacks_exited sub sc cfg hC _ x _ (s.emitG (.exit f.path)) s1 (by rw [he]; rfl)
+
+theorem enterAll_exited (hC : NoCmds sc) (x : Ctx) : ∀ (fs : List Found) (s s' : NSt),
+    (enterAll sub sc cfg x fs s).state? = some s' → s'.exited = s.exited
+  | [], s, s', h => by simp only [enterAll, Res.state?, Option.some.injEq] at h; subst h; rfl
+  | f :: fs, s, s', h => by
+    unfold enterAll at h
+    rcases bind_state h with ⟨e, he⟩ | ⟨a, s1, he, h1⟩
+    · exact ncallbacks_exited sub sc cfg hC _ x _ (s.emitG (.enter f.path)) s' (by rw [he]; rfl)
+    · rw [enterAll_exited hC x fs s1 s' h1]
+      exact ncallbacks_exited sub sc cfg hC _ x _ (s.emitG (.enter f.path)) s1 (by rw [he]; rfl)
+
+theorem nchangeState_exsub (hC : NoCmds sc) (scope : Scope) (x : Ctx) (dest : SPath) (s s' : NSt)
+    (h : (nchangeState sub sc cfg scope x dest s).state? = some s') : ExSub s s' := by
+  unfold nchangeState at h
+  split at h
+  · simp only [Res.state?, Option.some.injEq] at h; subst h; exact ExSub.refl _
+  · simp [Res.state?] at h
+  · rename_i r _
+    have q0 : ExSub s ({ s with exited := s.exited ++ r.exitNames } : NSt) := fun q hq => List.mem_append_left _ hq
+    rcases bind_state h with ⟨e, he⟩ | ⟨a, s1, he, h1⟩
+    · exact q0.trans (ExSub.of_eq (exitAll_exited sub sc cfg hC x _ _ s' (by rw [he]; rfl)))
+    · have e1 := exitAll_exited sub sc cfg hC x _ _ s1 (by rw [he]; rfl)
+      have e2 := enterAll_exited sub sc cfg hC x _ _ s' h1
+      exact q0.trans ((ExSub.of_eq e1).trans (ExSub.of_eq e2))
+
+theorem nexecute_exsub (hC : NoCmds sc) (scope : Scope) (x : Ctx) (tr : TRef) (t : NTrans) (s s' : NSt)
+    (h : (nexecute sub sc cfg scope x tr t s).state? = some s') : ExSub s s' := by
+  unfold nexecute at h
+  have cb : ∀ slot cbs (a b : NSt), (ncallbacks sub sc cfg slot x cbs a).state? = some b → ExSub a b :=
+    fun slot cbs a b hab => ExSub.of_eq (ncallbacks_exited sub sc cfg hC slot x cbs a b hab)
+  have q0 : ExSub s (s.emitG (.cand tr)) := ExSub.refl _
+  rcases bind_state h with ⟨e, he⟩ | ⟨_, s1, he, h⟩
+  · exact q0.trans (cb _ _ _ _ (by rw [he]; rfl))
+  have q1 := q0.trans (cb _ _ _ s1 (by rw [he]; rfl))
+  rcases bind_state h with ⟨e, he⟩ | ⟨ok, s2, he, h⟩
+  · exact q1.trans (ExSub.of_eq (nevalConds_exited sub sc cfg hC x _ s1 s' (by rw [he]; rfl)))
+  have q2 := q1.trans (ExSub.of_eq (nevalConds_exited sub sc cfg hC x _ s1 s2 (by rw [he]; rfl)))
+  cases ok with
+  | false => simp only [Bool.not_false, if_true, Res.state?, Option.some.injEq] at h; subst h; exact q2
+  | true =>
+  simp only [Bool.not_true, Bool.false_eq_true, if_false] at h
+  rcases bind_state h with ⟨e, he⟩ | ⟨_, s3, he, h⟩
+  · exact q2.trans (cb _ _ _ _ (by rw [he]; rfl))
+  have q3 : ExSub s (s3.emitG (.exec tr)) := q2.trans (cb _ _ _ s3 (by rw [he]; rfl))
+  rcases bind_state h with ⟨e, he⟩ | ⟨_, s4, he, h⟩
+  · exact q3.trans (cb _ _ _ _ (by rw [he]; rfl))
+  have q4 := q3.trans (cb _ _ _ s4 (by rw [he]; rfl))
+  have h5 : ∀ s5, (match t.dest with
+        | some d => nchangeState sub sc cfg scope x d s4
+        | none => .ok () s4).state? = some s5 → ExSub s4 s5 := by
+    intro s5 h
+    cases hd : t.dest with
+    | none => simp only [hd, Res.state?, Option.some.injEq] at h; subst h; exact ExSub.refl _
+    | some d => simp only [hd] at h; exact nchangeState_exsub sub sc cfg hC scope x d s4 s5 h
+  rcases bind_state h with ⟨e, he⟩ | ⟨_, s5, he, h⟩
+  · exact q4.trans (h5 _ (congrArg Res.state? he))
+  have q5 := q4.trans (h5 s5 (congrArg Res.state? he))
+  rcases bind_state h with ⟨e, he⟩ | ⟨_, s6, he, h⟩
+  · exact q5.trans (cb _ _ _ _ (by rw [he]; rfl))
+  have q6 := q5.trans (cb _ _ _ s6 (by rw [he]; rfl))
+  rcases bind_state h with ⟨e, he⟩ | ⟨_, s7, he, h⟩
+  · exact q6.trans (cb _ _ _ _ (by rw [he]; rfl))
+  have q7 := q6.trans (cb _ _ _ s7 (by rw [he]; rfl))
+  simp only [Res.state?, Option.some.injEq] at h; subst h; exact q7
+
+theorem ntry_exsub (hC : NoCmds sc) (scope : Scope) (x : Ctx) : ∀ (cands : List (TRef × NTrans)) (s s' : NSt),
+    (ntry sub sc cfg scope x cands s).state? = some s' → ExSub s s'
+  | [], s, s', h => by simp only [ntry, Res.state?, Option.some.injEq] at h; subst h; exact ExSub.refl _
+  | (tr, t) :: r, s, s', h => by
+    unfold ntry at h
+    rcases bind_state h with ⟨e, he⟩ | ⟨b, s1, he, h1⟩
+    · exact nexecute_exsub sub sc cfg hC scope x tr t s s' (by rw [he]; rfl)
+    · have q1 := nexecute_exsub sub sc cfg hC scope x tr t s s1 (by rw [he]; rfl)
+      cases b with
+      | true => simp only [if_true, Res.state?, Option.some.injEq] at h1; subst h1; exact q1
+      | false =>
+        simp only [Bool.false_eq_true, if_false] at h1
+        have q2 : ExSub s1 ({ s1 with result := some false } : NSt) := fun _ hq => hq
+        exact q1.trans (q2.trans (ntry_exsub hC scope x r _ s' h1))
+
+theorem nprocess_exsub (hC : NoCmds sc) (scope : Scope) (x : Ctx) (cands : List (TRef × NTrans)) (s s' : NSt)
+    (h : (nprocess sub sc cfg scope x cands s).state? = some s') : ExSub s s' := by
+  unfold nprocess at h
+  rcases bind_state h with ⟨e, he⟩ | ⟨_, s1, he, h1⟩
+  · exact ExSub.of_eq (ncallbacks_exited sub sc cfg hC _ x _ s s' (by rw [he]; rfl))
+  · exact (ExSub.of_eq (ncallbacks_exited sub sc cfg hC _ x _ s s1 (by rw [he]; rfl))).trans
+      (ntry_exsub sub sc cfg hC scope x cands s1 s' h1)
 
 end
 
@@ -417,18 +568,23 @@ def Srcs (ps done : List SPath) (offs : List SOffer) : Prop :=
 def P3 (ps : List SPath) (offs : List SOffer) : Prop :=
   ps.Pairwise (fun a b => properPrefix a b = false) → ps.Nodup → sAfter offs = true ∧ sOrder offs = true
 
-def Complete (pre : SPath) (ev : Nat) (ts : List NTrans) (ps done : List SPath) (offs : List SOffer) : Prop :=
+def Complete (pre : SPath) (ev : Nat) (ts : List NTrans) (ps done : List SPath) (offs : List SOffer) (s' : NSt) :
+    Prop :=
   ∀ p ∈ ps, p ∉ done → (ncandidates pre ev ts p).isEmpty = false →
-    (∃ o ∈ offs, o.src = p) ∨ (∃ o ∈ offs, o.executed = true ∧ isPrefix p o.src = true)
+    (∃ o ∈ offs, o.src = p) ∨ (∃ o ∈ offs, o.executed = true ∧ isPrefix p o.src = true) ∨ (pre ++ p) ∈ s'.exited
 
 def LoopErr (ts : List NTrans) (ps done : List SPath) (s s' : NSt) : Prop :=
   ∃ offs, Adds ts offs s s' ∧ Srcs ps done offs ∧ P3 ps offs
 
-def LoopOk (pre : SPath) (ev : Nat) (ts : List NTrans) (ps done : List SPath) (s s' : NSt) : Prop :=
-  ∃ offs, Adds ts offs s s' ∧ Srcs ps done offs ∧ P3 ps offs ∧ Complete pre ev ts ps done offs ∧
+/-- the loop ended normally with the `done` set `done'` -/
+def LoopOk (pre : SPath) (ev : Nat) (ts : List NTrans) (ps done : List SPath) (s : NSt) (done' : List SPath)
+    (s' : NSt) : Prop :=
+  ∃ offs, Adds ts offs s s' ∧ Srcs ps done offs ∧ P3 ps offs ∧ Complete pre ev ts ps done offs s' ∧
     s'.result = (match offs.getLast? with
       | some o => some o.executed
-      | none => s.result)
+      | none => s.result) ∧
+    (∃ ext, done' = done ++ ext ∧ (ext = [] ↔ offs.any (·.executed) = false)) ∧
+    ExSub s s'
 
 theorem Srcs.skip {p : SPath} {ps done : List SPath} {offs : List SOffer} (h : Srcs ps done offs) :
     Srcs (p :: ps) done offs := fun o ho => ⟨List.mem_cons_of_mem _ (h o ho).1, (h o ho).2⟩
@@ -481,12 +637,17 @@ theorem p3_combine {p : SPath} {ps done done' : List SPath} {cands : List (TRef 
 section
 variable (sub : NSub) (sc : Script) (cfg : NCfg)
 
+theorem prefixesOf_ne_nil {p : SPath} (h : p ≠ []) : prefixesOf p ≠ [] := by
+  cases p with
+  | nil => exact absurd rfl h
+  | cons a l => simp [prefixesOf, List.range_succ_eq_map]
+
 theorem tnLoop_main (hC : NoCmds sc) (scope : Scope) (x : Ctx) (ev : Nat) (ts : List NTrans) :
     ∀ (ps done : List SPath) (s : NSt),
-    Post (fun _ => LoopOk scope.pre ev ts ps done s) (LoopErr ts ps done s)
+    Post (LoopOk scope.pre ev ts ps done s) (LoopErr ts ps done s)
       (tnLoop sub sc cfg scope x ev ts ps done s)
   | [], done, s => by
-    refine ⟨[], Adds.refl s, by simp [Srcs], ?_, by simp [Complete], rfl⟩
+    refine ⟨[], Adds.refl s, by simp [Srcs], ?_, by simp [Complete], rfl, ⟨[], by simp, by simp⟩, ExSub.refl s⟩
     intro _ _; simp [sAfter, sOrder, pairs]
   | p :: ps, done, s => by
     unfold tnLoop
@@ -494,35 +655,36 @@ theorem tnLoop_main (hC : NoCmds sc) (scope : Scope) (x : Ctx) (ev : Nat) (ts : 
     split
     · rename_i hcond
       refine Post.mono (tnLoop_main hC scope x ev ts ps done s) ?_ ?_
-      · rintro _ s' ⟨offs, ha, h1, h2, h3, h4⟩
-        refine ⟨offs, ha, h1.skip, h2.skip, ?_, h4⟩
+      · rintro _ s' ⟨offs, ha, h1, h2, h3, h4, h5, h6⟩
+        refine ⟨offs, ha, h1.skip, h2.skip, ?_, h4, h5, h6⟩
         intro q hq hqd hqc
         rcases List.mem_cons.mp hq with rfl | hq
-        · rcases hcond with hcond | hcond
+        · rcases hcond with hcond | hcond | hcond
           · exact absurd hcond hqd
           · rw [hcond] at hqc; cases hqc
+          · exact Or.inr (Or.inr (h6 _ hcond))
         · exact h3 q hq hqd hqc
       · rintro s' ⟨offs, ha, h1, h2⟩
         exact ⟨offs, ha, h1.skip, h2.skip⟩
     · rename_i hcond
       have hpd : p ∉ done := fun hp => hcond (Or.inl hp)
       have hcne : ncandidates scope.pre ev ts p ≠ [] := by
-        intro h; apply hcond; right; rw [h]; rfl
+        intro h; apply hcond; right; left; rw [h]; rfl
       split
       · refine ⟨[], Adds.refl s, by simp [Srcs], ?_⟩
         intro _ _; simp [sAfter, sOrder, pairs]
       · rename_i f hgs
         have hpne : p ≠ [] := by
           intro hp; subst hp; rw [getState_nil] at hgs; cases hgs
-        refine Post.bind (nprocess_post2 (ts := ts) sub sc cfg hC scope x p _ s ncandidates_ok
-          (ncandidates_sorted _ _ _ _) hcne) ?_ ?_
-        · rintro s1 ⟨g, ha, hg⟩
+        refine Post.bind (Post.and (nprocess_post2 (ts := ts) sub sc cfg hC scope x p _ s ncandidates_ok
+          (ncandidates_sorted _ _ _ _) hcne) (Post.of_state (nprocess_exsub sub sc cfg hC scope x _ s))) ?_ ?_
+        · rintro s1 ⟨⟨g, ha, hg⟩, _⟩
           have := p3_combine (ps := ps) (done := done) (done' := done ++ prefixesOf p) (offs := []) hg hpd hpne
             (fun _ h => List.mem_append_left _ h) (fun _ _ _ q hq => List.mem_append_right _ hq)
             (by simp [Srcs]) (by intro _ _; simp [sAfter, sOrder, pairs])
           rw [List.append_nil] at this
           exact ⟨g, ha, this.1, this.2⟩
-        · rintro _ s1 ⟨g, ha, hg, ⟨ol, hl, hres⟩, hex⟩
+        · rintro _ s1 ⟨⟨g, ha, hg, ⟨ol, hl, hres⟩, hex⟩, hxs⟩
           generalize hd' : (if s1.result = some true then done ++ prefixesOf p else done) = done'
           have hsub : ∀ q, q ∈ done → q ∈ done' := by
             intro q hq; subst hd'; split
@@ -533,15 +695,24 @@ theorem tnLoop_main (hC : NoCmds sc) (scope : Scope) (x : Ctx) (ev : Nat) (ts : 
             subst hd'; rw [if_pos (hex o ho he)]
             exact List.mem_append_right _ hq
           have hol : ol ∈ g := List.mem_of_getLast? hl
+          -- some offer of the group executed iff the pass of this state set `result` to True
+          have hany : g.any (·.executed) = true ↔ s1.result = some true := by
+            constructor
+            · intro h
+              obtain ⟨o, ho, he⟩ := List.any_eq_true.mp h
+              exact hex o ho he
+            · intro h
+              rw [hres] at h
+              exact List.any_eq_true.mpr ⟨ol, hol, by simpa using h⟩
           refine Post.mono (tnLoop_main hC scope x ev ts ps done' s1) ?_ ?_
-          · rintro _ s' ⟨offs, ha', h1, h2, h3, h4⟩
+          · rintro dn s' ⟨offs, ha', h1, h2, h3, h4, ⟨ext, hdn, hext⟩, h6⟩
             obtain ⟨c1, c2⟩ := p3_combine hg hpd hpne hsub hex' h1 h2
-            refine ⟨g ++ offs, ha.trans ha', c1, c2, ?_, ?_⟩
+            refine ⟨g ++ offs, ha.trans ha', c1, c2, ?_, ?_, ?_, hxs.trans h6⟩
             · intro q hq hqd hqc
               rcases List.mem_cons.mp hq with rfl | hq
               · exact Or.inl ⟨ol, List.mem_append_left _ hol, hg.src ol hol⟩
               · by_cases hqd' : q ∈ done'
-                · right
+                · right; left
                   subst hd'
                   split at hqd'
                   · rename_i hr
@@ -551,16 +722,86 @@ theorem tnLoop_main (hC : NoCmds sc) (scope : Scope) (x : Ctx) (ev : Nat) (ts : 
                       · rw [hres] at hr; simpa using hr
                       · rw [hg.src ol hol]; exact isPrefix_of_mem_prefixesOf hm
                   · exact absurd hqd' hqd
-                · rcases h3 q hq hqd' hqc with ⟨o, ho, h⟩ | ⟨o, ho, h⟩
+                · rcases h3 q hq hqd' hqc with ⟨o, ho, h⟩ | ⟨o, ho, h⟩ | h
                   · exact Or.inl ⟨o, List.mem_append_right _ ho, h⟩
-                  · exact Or.inr ⟨o, List.mem_append_right _ ho, h⟩
+                  · exact Or.inr (Or.inl ⟨o, List.mem_append_right _ ho, h⟩)
+                  · exact Or.inr (Or.inr h)
             · rw [h4]
               cases offs with
               | nil => rw [List.append_nil, hl, hres]; rfl
               | cons b l => rw [List.getLast?_append, List.getLast?_cons]; rfl
+            · subst hd'
+              by_cases hr : s1.result = some true
+              · rw [if_pos hr] at hdn
+                refine ⟨prefixesOf p ++ ext, by rw [hdn, List.append_assoc], ?_⟩
+                have h1 : ¬ (prefixesOf p ++ ext = []) := by
+                  intro h; exact prefixesOf_ne_nil hpne (List.append_eq_nil_iff.mp h).1
+                have h2 : ¬ ((g ++ offs).any (·.executed) = false) := by
+                  rw [List.any_append, hany.mpr hr]; simp
+                exact ⟨fun h => absurd h h1, fun h => absurd h h2⟩
+              · rw [if_neg hr] at hdn
+                refine ⟨ext, hdn, ?_⟩
+                have hg0 : g.any (·.executed) = false := by
+                  cases hga : g.any (·.executed) with
+                  | false => rfl
+                  | true => exact absurd (hany.mp hga) hr
+                rw [List.any_append, hg0, Bool.false_or]
+                exact hext
           · rintro s' ⟨offs, ha', h1, h2⟩
             obtain ⟨c1, c2⟩ := p3_combine hg hpd hpne hsub hex' h1 h2
             exact ⟨g ++ offs, ha.trans ha', c1, c2⟩
+end
+
+/-- the value of a pass that made the offers `offs`, starting with `event_data.result = r0` -/
+def passValue (offs : List SOffer) (r0 : Option Bool) : Option Bool :=
+  if offs.any (·.executed) then some true
+  else match offs.getLast? with
+    | some _ => some false
+    | none => r0
+
+section
+variable (sub : NSub) (sc : Script) (cfg : NCfg)
+
+theorem triggerNested_post (hC : NoCmds sc) (scope : Scope) (x : Ctx) (ev : Nat) (ts : List NTrans) (s : NSt) :
+    Post (fun tmp s' => ∃ offs, Adds ts offs s s' ∧ tmp = passValue offs s.result) (fun _ => True)
+      (triggerNested sub sc cfg scope x ev ts s) := by
+  unfold triggerNested
+  split
+  · trivial
+  · trivial
+  · split
+    · trivial
+    · rename_i order _
+      refine Post.bind (tnLoop_main sub sc cfg hC scope x ev ts order [] s) (fun _ _ => trivial) ?_
+      rintro dn s1 ⟨offs, ha, _, _, _, hres, ⟨ext, hdn, hext⟩, _⟩
+      rw [List.nil_append] at hdn
+      subst hdn
+      cases hd : dn.isEmpty with
+      | true =>
+        have hany := hext.mp (List.isEmpty_iff.mp hd)
+        simp only [if_true]
+        refine ⟨offs, ha, ?_⟩
+        show s1.result = passValue offs s.result
+        rw [hres, passValue, hany]
+        simp only [Bool.false_eq_true, if_false]
+        cases hl : offs.getLast? with
+        | none => rfl
+        | some o =>
+          have ho : o ∈ offs := List.mem_of_getLast? hl
+          have := (List.any_eq_false.mp hany) o ho
+          simp only [Bool.not_eq_true] at this
+          simp only [this]
+      | false =>
+        have hany : offs.any (·.executed) = true := by
+          cases h : offs.any (·.executed) with
+          | true => rfl
+          | false =>
+            have := hext.mpr h
+            rw [this] at hd; cases hd
+        simp only [Bool.false_eq_true, if_false]
+        refine ⟨offs, ha.sil_r (Adds.of_glog rfl), ?_⟩
+        rw [passValue, hany]; rfl
+
 end
 
 /-- the ghost log grows by a segment whose executed sources all lie in `nodes` -/
@@ -606,13 +847,13 @@ theorem triggerNested_step2 (hC : NoCmds sc) (x : Ctx) (ev : Nat) (ts : List NTr
     rcases bind_state h with ⟨e, he⟩ | ⟨a, s1, he, h1⟩
     · obtain ⟨seg, e1, _, _, h4⟩ := haux s' hpw hnd (by rw [he]; rfl)
       exact ⟨seg, e1, fun p hp => hperm.mem_iff.mp (h4 p hp).1⟩
-    · simp only [Res.state?, Option.some.injEq] at h1; subst h1
-      obtain ⟨seg, e1, _, _, h4⟩ := haux s1 hpw hnd (by rw [he]; rfl)
-      exact ⟨seg, e1, fun p hp => hperm.mem_iff.mp (h4 p hp).1⟩
+    · obtain ⟨seg, e1, _, _, h4⟩ := haux s1 hpw hnd (by rw [he]; rfl)
+      split at h1 <;> (simp only [Res.state?, Option.some.injEq] at h1; subst h1) <;>
+        exact ⟨seg, e1, fun p hp => hperm.mem_iff.mp (h4 p hp).1⟩
 
 theorem ten_step2 (hC : NoCmds sc) (x : Ctx) (ev : Nat) (hno : cfg.states.noEvents = true) (s s' : NSt)
     (hlen : s.conf.len = 1) (hcok : ConfOK cfg.states s.conf = true)
-    (h : (ten sub sc cfg x ev cfg.root s.conf [] s).state? = some s') :
+    (h : (ten sub sc cfg x ev cfg.root s.conf [] false s).state? = some s') :
     Step2 ((alookup ev cfg.events).getD []) s.conf.nodes s s' := by
   obtain ⟨k, v, hkv⟩ := Forest.len_one hlen
   rw [hkv, ten_global_only cfg sub sc x ev hno k v (hkv ▸ hcok) s] at h
@@ -677,16 +918,19 @@ theorem tnLoop_p3 (cfg : NCfg) (sub : NSub) (sc : Script) (hR : NoRaise sc) (hC 
   exact h3 hpw hnd
 
 /-- **completeness of one pass** that ends normally: every listed state that has candidates and is not in the
-`done` set it started with was offered, unless a transition of that state or of a descendant executed in this pass -/
+`done` set it started with was offered, unless a transition of that state or of a descendant executed in this pass,
+or the state was exited earlier while this event was processed -/
 theorem tnLoop_complete (cfg : NCfg) (sub : NSub) (sc : Script) (hR : NoRaise sc) (hC : NoCmds sc)
     (scope : Scope) (x : Ctx) (ev : Nat) (ts : List NTrans) :
-    ∀ (ps done : List SPath) (s s' : NSt),
-    tnLoop sub sc cfg scope x ev ts ps done s = .ok () s' →
+    ∀ (ps done done' : List SPath) (s s' : NSt),
+    tnLoop sub sc cfg scope x ev ts ps done s = .ok done' s' →
     ∃ seg, s'.glog = s.glog ++ seg ∧
       ∀ p ∈ ps, p ∉ done → (ncandidates scope.pre ev ts p).isEmpty = false →
-        (∃ o ∈ sOffers ts seg [], o.src = p) ∨ (∃ o ∈ sOffers ts seg [], o.executed = true ∧ isPrefix p o.src = true) := by
+        (∃ o ∈ sOffers ts seg [], o.src = p) ∨
+        (∃ o ∈ sOffers ts seg [], o.executed = true ∧ isPrefix p o.src = true) ∨
+        (scope.pre ++ p) ∈ s'.exited := by
   have _ := hR
-  intro ps done s s' h
+  intro ps done done' s s' h
   have hm := Pass2.tnLoop_main sub sc cfg hC scope x ev ts ps done s
   rw [h] at hm
   obtain ⟨offs, ⟨seg, e1, hs⟩, _, _, h3, _⟩ := hm
@@ -694,25 +938,23 @@ theorem tnLoop_complete (cfg : NCfg) (sub : NSub) (sc : Script) (hR : NoRaise sc
   rw [hs []]
   exact h3
 
-/-- **what the pass returns** (`event_data.result`): the outcome of the LAST state that was offered — `some true` iff
-its last candidate executed — and the old value if nothing was offered.  Hence "True iff some transition executed"
-holds exactly when no state is offered and blocked after an execution. -/
-theorem tnLoop_result (cfg : NCfg) (sub : NSub) (sc : Script) (hR : NoRaise sc) (hC : NoCmds sc)
-    (scope : Scope) (x : Ctx) (ev : Nat) (ts : List NTrans) :
-    ∀ (ps done : List SPath) (s s' : NSt),
-    tnLoop sub sc cfg scope x ev ts ps done s = .ok () s' →
+/-- what `trigger_nested` returns: True iff some transition of this call executed; otherwise False if some state
+was offered (all its candidates blocked), and the old value if nobody was offered -/
+theorem triggerNested_result (cfg : NCfg) (sub : NSub) (sc : Script) (hR : NoRaise sc) (hC : NoCmds sc)
+    (scope : Scope) (x : Ctx) (ev : Nat) (ts : List NTrans) (s s' : NSt) (tmp : Option Bool)
+    (h : triggerNested sub sc cfg scope x ev ts s = .ok tmp s') :
     ∃ seg, s'.glog = s.glog ++ seg ∧
-      s'.result = (match (sOffers ts seg []).getLast? with
-        | some o => some o.executed
-        | none => s.result) := by
+      tmp = (if (sOffers ts seg []).any (·.executed) then some true
+             else match (sOffers ts seg []).getLast? with
+               | some _ => some false
+               | none => s.result) := by
   have _ := hR
-  intro ps done s s' h
-  have hm := Pass2.tnLoop_main sub sc cfg hC scope x ev ts ps done s
-  rw [h] at hm
-  obtain ⟨offs, ⟨seg, e1, hs⟩, _, _, _, h4⟩ := hm
+  have hp := Pass2.triggerNested_post sub sc cfg hC scope x ev ts s
+  rw [h] at hp
+  obtain ⟨offs, ⟨seg, e1, hs⟩, ht⟩ := hp
   refine ⟨seg, e1, ?_⟩
   rw [hs []]
-  exact h4
+  exact ht
 
 /-- **first half of P2 for machine-level declarations**: while one trigger call is processed on a machine without
 local declarations, every transition executes from a state that was active when the event began -/
@@ -739,10 +981,11 @@ theorem C03_P2_active_at_start (cfg : NCfg) (sub : NSub) (sc : Script) (hR : NoR
       Pass2.Step2 ((alookup ev cfg.events).getD []) s.conf.nodes s s2 := by
     intro s2 h2
     obtain ⟨sb, hb, qb⟩ := Pass.ntriggerEvent_body sub sc cfg hC _ ev s1 s2 h2
-    have hstep := Pass2.triggerEventBody_step2 sub sc cfg hC _ ev hno { s1 with result := none } sb
+    have hstep := Pass2.triggerEventBody_step2 sub sc cfg hC _ ev hno { s1 with result := none, exited := [] } sb
       (by show s1.conf.len = 1; rw [hconf]; exact hlen) (by show ConfOK cfg.states s1.conf = true; rw [hconf]; exact hcok) hb
-    have hstep' : Pass2.Step2 ((alookup ev cfg.events).getD []) s.conf.nodes ({ s1 with result := none } : NSt) sb := by
-      have : ({ s1 with result := none } : NSt).conf = s.conf := hconf
+    have hstep' : Pass2.Step2 ((alookup ev cfg.events).getD []) s.conf.nodes
+        ({ s1 with result := none, exited := [] } : NSt) sb := by
+      have : ({ s1 with result := none, exited := [] } : NSt).conf = s.conf := hconf
       rw [← this]; exact hstep
     exact Pass2.Step2.wrap (q01.trans (Pass.Quiet.of_glog rfl)) hstep' qb
   cases hn : ntriggerEvent sub sc cfg ⟨0, s.nextTag⟩ ev s1 with
@@ -755,6 +998,414 @@ theorem C03_P2_active_at_start (cfg : NCfg) (sub : NSub) (sc : Script) (hR : NoR
     rw [hn] at h
     simp only [Res.state?, Option.some.injEq] at h; subst h
     exact Pass2.Step2.wrap (Pass.Quiet.refl _) (key s2 (by rw [hn]; rfl)) ⟨[.raised s.nextTag e], rfl, rfl⟩
+
+
+/-! ### second half of P2: no transition executes from a state exited earlier while the event is processed -/
+
+/-- no transition executes from a state that was exited earlier in the segment -/
+def execFresh (ts : List NTrans) : List GEv → List SPath → Bool
+  | [], _ => true
+  | .exit p :: l, ex => execFresh ts l (ex ++ [p])
+  | .exec tr :: l, ex => (match ts[tr.idx]? with
+      | some t => !ex.contains t.source
+      | none => true) && execFresh ts l ex
+  | _ :: l, ex => execFresh ts l ex
+
+namespace Pass2
+open Pass
+
+/-- the `exit` events of a ghost segment -/
+def exits (seg : List GEv) : List SPath :=
+  seg.filterMap fun e => match e with
+    | .exit p => some p
+    | _ => none
+
+theorem exits_append (a b : List GEv) : exits (a ++ b) = exits a ++ exits b := by
+  simp [exits, List.filterMap_append]
+
+theorem execFresh_append (ts : List NTrans) : ∀ (a b : List GEv) (ex : List SPath),
+    execFresh ts (a ++ b) ex = (execFresh ts a ex && execFresh ts b (ex ++ exits a))
+  | [], b, ex => by simp [execFresh, exits]
+  | e :: a, b, ex => by
+    cases e <;> simp only [List.cons_append, execFresh, exits, List.filterMap_cons] <;>
+      rw [execFresh_append ts a b] <;> simp [exits, Bool.and_assoc]
+
+theorem execFresh_quiet (ts : List NTrans) : ∀ (seg : List GEv) (ex : List SPath), refs seg = [] →
+    execFresh ts seg ex = true
+  | [], _, _ => rfl
+  | e :: l, ex, h => by
+    cases e <;> simp only [refs, List.filterMap_cons] at h <;> try (exact absurd h (List.cons_ne_nil _ _))
+    all_goals (simp only [execFresh]; exact execFresh_quiet ts l _ h)
+
+/-- a step that leaves configuration and `exited` alone, executes nothing and exits only states of `X` -/
+def FrX (X : List SPath) (s s' : NSt) : Prop :=
+  s'.conf = s.conf ∧ s'.exited = s.exited ∧
+    ∃ seg, s'.glog = s.glog ++ seg ∧ refs seg = [] ∧ ∀ q ∈ exits seg, q ∈ X
+
+theorem FrX.refl (X : List SPath) (s : NSt) : FrX X s s := ⟨rfl, rfl, [], by simp, rfl, by simp [exits]⟩
+
+theorem FrX.trans {X : List SPath} {a b c : NSt} (h1 : FrX X a b) (h2 : FrX X b c) : FrX X a c := by
+  obtain ⟨c1, x1, s1, e1, r1, k1⟩ := h1
+  obtain ⟨c2, x2, s2, e2, r2, k2⟩ := h2
+  refine ⟨c2.trans c1, x2.trans x1, s1 ++ s2, by rw [e2, e1, List.append_assoc], by rw [refs_append, r1, r2]; rfl, ?_⟩
+  intro q hq
+  rw [exits_append] at hq
+  rcases List.mem_append.mp hq with h | h
+  · exact k1 q h
+  · exact k2 q h
+
+theorem FrX.mono {X Y : List SPath} {a b : NSt} (h : FrX X a b) (hXY : ∀ q ∈ X, q ∈ Y) : FrX Y a b := by
+  obtain ⟨c1, x1, s1, e1, r1, k1⟩ := h
+  exact ⟨c1, x1, s1, e1, r1, fun q hq => hXY q (k1 q hq)⟩
+
+theorem FrX.of_eq {X : List SPath} {s s' : NSt} (hv : s'.view = s.view) (hx : s'.exited = s.exited) : FrX X s s' :=
+  ⟨congrArg View.conf hv, hx, [], by simp [show s'.glog = s.glog from congrArg View.glog hv], rfl, by simp [exits]⟩
+
+theorem FrX.emitG (X : List SPath) (s : NSt) (e : GEv) (h1 : ∀ tr, e ≠ .exec tr) (h2 : ∀ p, e = .exit p → p ∈ X) :
+    FrX X s (s.emitG e) := by
+  refine ⟨rfl, rfl, [e], rfl, ?_, ?_⟩
+  · cases e <;> first | rfl | exact absurd rfl (h1 _)
+  · intro q hq
+    cases e <;> simp [exits] at hq
+    subst hq; exact h2 _ rfl
+
+/-- the frame of the second half of P2: the configuration stays well-formed with a single root, `exited` only
+grows and contains the states exited in the segment, and every execution in the segment is from a state that is in
+no list `E` of states recorded as exited before the segment nor exited in the segment before it -/
+def Fr (cfg : NCfg) (ts : List NTrans) (s s' : NSt) : Prop :=
+  ConfOK cfg.states s'.conf = true ∧ s'.conf.len = 1 ∧ ExSub s s' ∧
+    ∃ seg, s'.glog = s.glog ++ seg ∧ (∀ q ∈ exits seg, q ∈ s'.exited) ∧
+      ∀ E : List SPath, (∀ q ∈ E, q ∈ s.exited) → execFresh ts seg E = true
+
+section
+variable {cfg : NCfg} {ts : List NTrans}
+
+theorem Fr.refl (s : NSt) (hc : ConfOK cfg.states s.conf = true) (hl : s.conf.len = 1) : Fr cfg ts s s :=
+  ⟨hc, hl, ExSub.refl s, [], by simp, by simp [exits], fun _ _ => rfl⟩
+
+theorem Fr.trans {a b c : NSt} (h1 : Fr cfg ts a b) (h2 : Fr cfg ts b c) : Fr cfg ts a c := by
+  obtain ⟨_, _, x1, s1, e1, k1, f1⟩ := h1
+  obtain ⟨c2, l2, x2, s2, e2, k2, f2⟩ := h2
+  refine ⟨c2, l2, x1.trans x2, s1 ++ s2, by rw [e2, e1, List.append_assoc], ?_, ?_⟩
+  · intro q hq
+    rw [exits_append] at hq
+    rcases List.mem_append.mp hq with h | h
+    · exact x2 q (k1 q h)
+    · exact k2 q h
+  · intro E hE
+    rw [execFresh_append, f1 E hE, Bool.true_and]
+    apply f2
+    intro q hq
+    rcases List.mem_append.mp hq with h | h
+    · exact x1 q (hE q h)
+    · exact k1 q h
+
+/-- a step that only changes the bookkeeping -/
+theorem Fr.of_glog {a b : NSt} (hc : ConfOK cfg.states b.conf = true) (hl : b.conf.len = 1) (hg : b.glog = a.glog)
+    (hx : ExSub a b) : Fr cfg ts a b :=
+  ⟨hc, hl, hx, [], by simp [hg], by simp [exits], fun _ _ => rfl⟩
+
+theorem FrX.fr {X : List SPath} {a b : NSt} (hc : ConfOK cfg.states a.conf = true) (hl : a.conf.len = 1)
+    (h : FrX X a b) (hX : ∀ q ∈ X, q ∈ b.exited) : Fr cfg ts a b := by
+  obtain ⟨c1, x1, s1, e1, r1, k1⟩ := h
+  exact ⟨by rw [c1]; exact hc, by rw [c1]; exact hl, ExSub.of_eq x1, s1, e1, fun q hq => hX q (k1 q hq),
+    fun E _ => execFresh_quiet ts s1 E r1⟩
+
+theorem Fr.exec {a : NSt} {tr : TRef} {t : NTrans} (hc : ConfOK cfg.states a.conf = true) (hl : a.conf.len = 1)
+    (ht : ts[tr.idx]? = some t) (hx : t.source ∉ a.exited) : Fr cfg ts a (a.emitG (.exec tr)) := by
+  refine ⟨hc, hl, ExSub.refl a, [.exec tr], rfl, by simp [exits], ?_⟩
+  intro E hE
+  have : t.source ∉ E := fun h => hx (hE _ h)
+  simp [execFresh, ht, this]
+
+end
+
+section
+variable (sub : NSub) (sc : Script) (cfg : NCfg) {ts : List NTrans}
+
+theorem ncallbacks_frx (hC : NoCmds sc) (X : List SPath) (slot : Slot) (x : Ctx) (cbs : List Nat) (s s' : NSt)
+    (h : (ncallbacks sub sc cfg slot x cbs s).state? = some s') : FrX X s s' :=
+  FrX.of_eq (ncallbacks_view sub sc cfg hC slot x cbs s s' h) (ncallbacks_exited sub sc cfg hC slot x cbs s s' h)
+
+theorem nevalConds_frx (hC : NoCmds sc) (X : List SPath) (x : Ctx) (cs : List Cond) (s s' : NSt)
+    (h : (nevalConds sub sc cfg x cs s).state? = some s') : FrX X s s' :=
+  FrX.of_eq (nevalConds_view sub sc cfg hC x cs s s' h) (nevalConds_exited sub sc cfg hC x cs s s' h)
+
+theorem exitAll_frx (hC : NoCmds sc) (x : Ctx) : ∀ (fs : List Found) (s s' : NSt),
+    (exitAll sub sc cfg x fs s).state? = some s' → FrX (pathsOf fs) s s'
+  | [], s, s', h => by
+    simp only [exitAll, Res.state?, Option.some.injEq] at h; subst h; exact FrX.refl _ _
+  | f :: fs, s, s', h => by
+    unfold exitAll at h
+    have h0 : FrX (pathsOf (f :: fs)) s (s.emitG (.exit f.path)) :=
+      FrX.emitG _ s _ (by intro tr h; cases h) (by intro p h; cases h; simp [pathsOf])
+    rcases bind_state h with ⟨e, he⟩ | ⟨a, s1, he, h1⟩
+    · exact h0.trans (ncallbacks_frx sub sc cfg hC _ _ x _ _ s' (by rw [he]; rfl))
+    · exact (h0.trans (ncallbacks_frx sub sc cfg hC _ _ x _ _ s1 (by rw [he]; rfl))).trans
+        ((exitAll_frx hC x fs s1 s' h1).mono (fun q hq => by simp only [pathsOf, List.map_cons] at hq ⊢; exact List.mem_cons_of_mem _ hq))
+
+theorem enterAll_frx (hC : NoCmds sc) (x : Ctx) : ∀ (fs : List Found) (s s' : NSt),
+    (enterAll sub sc cfg x fs s).state? = some s' → FrX [] s s'
+  | [], s, s', h => by
+    simp only [enterAll, Res.state?, Option.some.injEq] at h; subst h; exact FrX.refl _ _
+  | f :: fs, s, s', h => by
+    unfold enterAll at h
+    have h0 : FrX [] s (s.emitG (.enter f.path)) :=
+      FrX.emitG _ s _ (by intro tr h; cases h) (by intro p h; cases h)
+    rcases bind_state h with ⟨e, he⟩ | ⟨a, s1, he, h1⟩
+    · exact h0.trans (ncallbacks_frx sub sc cfg hC _ _ x _ _ s' (by rw [he]; rfl))
+    · exact (h0.trans (ncallbacks_frx sub sc cfg hC _ _ x _ _ s1 (by rw [he]; rfl))).trans
+        (enterAll_frx hC x fs s1 s' h1)
+
+/-- `_change_state` of a machine-level transition: what it exits is what it recorded in `exited` -/
+theorem nchangeState_fr (hwf : cfg.states.WF = true) (hC : NoCmds sc) (x : Ctx) (dest : SPath) (s s' : NSt)
+    (hc : ConfOK cfg.states s.conf = true) (hl : s.conf.len = 1)
+    (h : (nchangeState sub sc cfg cfg.root x dest s).state? = some s') : Fr cfg ts s s' := by
+  unfold nchangeState at h
+  split at h
+  · simp only [Res.state?, Option.some.injEq] at h; subst h; exact Fr.refl _ hc hl
+  · simp [Res.state?] at h
+  · rename_i r hr
+    have hroot : cfg.root.walkTo cfg.root.pre = some cfg.root := rfl
+    obtain ⟨_, _, _, _, _, _, _, _, _, htc, htl, _⟩ :=
+      resolveTransition_spec enterSpec_holds enterRootEq_holds cfg hwf cfg.root hroot s.conf hc hl dest r hr
+    have hnames := resolveTransition_exitNames enterSpec_holds enterRootEq_holds cfg hwf cfg.root hroot s.conf hc hl
+      dest r hr
+    have f0 : Fr cfg ts s ({ s with exited := s.exited ++ r.exitNames } : NSt) :=
+      Fr.of_glog hc hl rfl (fun q hq => List.mem_append_left _ hq)
+    rcases bind_state h with ⟨e, he⟩ | ⟨a, s1, he, h1⟩
+    · have hx := exitAll_frx sub sc cfg hC x _ _ s' (by rw [he]; rfl)
+      refine f0.trans (hx.fr hc hl ?_)
+      intro q hq
+      rw [hx.2.1]
+      exact List.mem_append_right _ (by rw [hnames]; exact hq)
+    · have hx := exitAll_frx sub sc cfg hC x _ _ s1 (by rw [he]; rfl)
+      have f1 : Fr cfg ts ({ s with exited := s.exited ++ r.exitNames } : NSt) s1 := hx.fr hc hl (by
+        intro q hq
+        rw [hx.2.1]
+        exact List.mem_append_right _ (by rw [hnames]; exact hq))
+      have f2 : Fr cfg ts s1 ({ s1 with conf := r.tree } : NSt) := Fr.of_glog htc htl rfl (ExSub.refl _)
+      have f3 : Fr cfg ts ({ s1 with conf := r.tree } : NSt) s' :=
+        (enterAll_frx sub sc cfg hC x _ _ s' h1).fr htc htl (by simp)
+      exact f0.trans (f1.trans (f2.trans f3))
+
+/-- `Transition.execute` of a machine-level transition whose source has not been exited -/
+theorem nexecute_fr (hwf : cfg.states.WF = true) (hC : NoCmds sc) (x : Ctx) (tr : TRef) (t : NTrans) (s : NSt)
+    (hc : ConfOK cfg.states s.conf = true) (hl : s.conf.len = 1)
+    (ht : ts[tr.idx]? = some t) (hx : t.source ∉ s.exited) :
+    Post (fun b s' => Fr cfg ts s s' ∧ (b = false → FrX [] s s')) (fun s' => Fr cfg ts s s')
+      (nexecute sub sc cfg cfg.root x tr t s) := by
+  unfold nexecute
+  have nil : ∀ (b : NSt), ∀ q ∈ ([] : List SPath), q ∈ b.exited := by simp
+  have q0 : FrX [] s (s.emitG (.cand tr)) := FrX.emitG _ s _ (by intro tr h; cases h) (by intro p h; cases h)
+  refine Post.bind (Post.of_state (ncallbacks_frx sub sc cfg hC [] _ x _ _))
+    (fun s' h => (q0.trans h).fr hc hl (nil _)) ?_
+  intro _ s1 h1
+  have q1 := q0.trans h1
+  refine Post.bind (Post.of_state (nevalConds_frx sub sc cfg hC [] x _ _))
+    (fun s' h => (q1.trans h).fr hc hl (nil _)) ?_
+  intro ok s2 h2
+  have q2 := q1.trans h2
+  cases ok with
+  | false => exact ⟨q2.fr hc hl (nil _), fun _ => q2⟩
+  | true =>
+  simp only [Bool.not_true, Bool.false_eq_true, if_false]
+  refine Post.bind (Post.of_state (ncallbacks_frx sub sc cfg hC [] _ x _ _))
+    (fun s' h => (q2.trans h).fr hc hl (nil _)) ?_
+  intro _ s3 h3
+  have q3 := q2.trans h3
+  have hc3 : ConfOK cfg.states s3.conf = true := by rw [q3.1]; exact hc
+  have hl3 : s3.conf.len = 1 := by rw [q3.1]; exact hl
+  have f3 : Fr cfg ts s (s3.emitG (.exec tr)) :=
+    (q3.fr hc hl (nil _)).trans (Fr.exec hc3 hl3 ht (by rw [q3.2.1]; exact hx))
+  have cbf : ∀ (a b : NSt), Fr cfg ts s a → FrX [] a b → Fr cfg ts s b := fun a b fa hab =>
+    fa.trans (hab.fr fa.1 fa.2.1 (nil _))
+  refine Post.bind (Post.of_state (ncallbacks_frx sub sc cfg hC [] _ x _ _)) (fun s' h => cbf _ _ f3 h) ?_
+  intro _ s4 h4
+  have f4 := cbf _ _ f3 h4
+  have h5 : ∀ s5, (match t.dest with
+        | some d => nchangeState sub sc cfg cfg.root x d s4
+        | none => .ok () s4).state? = some s5 → Fr cfg ts s4 s5 := by
+    intro s5 h
+    cases hd : t.dest with
+    | none => simp only [hd, Res.state?, Option.some.injEq] at h; subst h; exact Fr.refl _ f4.1 f4.2.1
+    | some d => simp only [hd] at h; exact nchangeState_fr (ts := ts) sub sc cfg hwf hC x d s4 s5 f4.1 f4.2.1 h
+  refine Post.bind (Post.of_state h5) (fun s' h => f4.trans h) ?_
+  intro _ s5 h5'
+  have f5 := f4.trans h5'
+  refine Post.bind (Post.of_state (ncallbacks_frx sub sc cfg hC [] _ x _ _)) (fun s' h => cbf _ _ f5 h) ?_
+  intro _ s6 h6
+  have f6 := cbf _ _ f5 h6
+  refine Post.bind (Post.of_state (ncallbacks_frx sub sc cfg hC [] _ x _ _)) (fun s' h => cbf _ _ f6 h) ?_
+  intro _ s7 h7
+  exact ⟨cbf _ _ f6 h7, fun h => by cases h⟩
+
+theorem ntry_fr (hwf : cfg.states.WF = true) (hC : NoCmds sc) (x : Ctx) (p : SPath) :
+    ∀ (cands : List (TRef × NTrans)) (s : NSt),
+    ConfOK cfg.states s.conf = true → s.conf.len = 1 →
+    (∀ c ∈ cands, ts[c.1.idx]? = some c.2 ∧ c.2.source = p) → p ∉ s.exited →
+    Post (fun _ s' => Fr cfg ts s s') (fun s' => Fr cfg ts s s') (ntry sub sc cfg cfg.root x cands s)
+  | [], s, hc, hl, _, _ => Fr.refl s hc hl
+  | (tr, t) :: r, s, hc, hl, hcs, hx => by
+    unfold ntry
+    obtain ⟨ht, hsrc⟩ := hcs (tr, t) (by simp)
+    refine Post.bind (nexecute_fr (ts := ts) sub sc cfg hwf hC x tr t s hc hl ht (by rw [hsrc]; exact hx))
+      (fun _ h => h) ?_
+    rintro b s1 ⟨hf, hq⟩
+    cases b with
+    | true =>
+      simp only [if_true]
+      exact hf.trans (Fr.of_glog hf.1 hf.2.1 rfl (fun _ h => h))
+    | false =>
+      simp only [Bool.false_eq_true, if_false]
+      obtain ⟨c1, x1, _⟩ := hq rfl
+      have hf' : Fr cfg ts s ({ s1 with result := some false } : NSt) :=
+        hf.trans (Fr.of_glog hf.1 hf.2.1 rfl (fun _ h => h))
+      refine Post.mono (ntry_fr hwf hC x p r _ hf.1 hf.2.1 (fun c hc' => hcs c (List.mem_cons_of_mem _ hc'))
+        (by show p ∉ s1.exited; rw [x1]; exact hx)) (fun _ _ h => hf'.trans h) (fun _ h => hf'.trans h)
+
+theorem nprocess_fr (hwf : cfg.states.WF = true) (hC : NoCmds sc) (x : Ctx) (p : SPath)
+    (cands : List (TRef × NTrans)) (s : NSt)
+    (hc : ConfOK cfg.states s.conf = true) (hl : s.conf.len = 1)
+    (hcs : ∀ c ∈ cands, ts[c.1.idx]? = some c.2 ∧ c.2.source = p) (hx : p ∉ s.exited) :
+    Post (fun _ s' => Fr cfg ts s s') (fun s' => Fr cfg ts s s') (nprocess sub sc cfg cfg.root x cands s) := by
+  unfold nprocess
+  refine Post.bind (Post.of_state (ncallbacks_frx sub sc cfg hC [] _ x _ _))
+    (fun s' h => h.fr hc hl (by simp)) ?_
+  intro _ s1 h1
+  have f1 : Fr cfg ts s s1 := h1.fr hc hl (by simp)
+  exact Post.mono (ntry_fr sub sc cfg hwf hC x p cands s1 f1.1 f1.2.1 hcs (by rw [h1.2.1]; exact hx))
+    (fun _ _ h => f1.trans h) (fun _ h => f1.trans h)
+
+theorem tnLoop_fr (hwf : cfg.states.WF = true) (hC : NoCmds sc) (x : Ctx) (ev : Nat) (ts : List NTrans) :
+    ∀ (ps done : List SPath) (s : NSt), ConfOK cfg.states s.conf = true → s.conf.len = 1 →
+    Post (fun _ s' => Fr cfg ts s s') (fun s' => Fr cfg ts s s') (tnLoop sub sc cfg cfg.root x ev ts ps done s)
+  | [], done, s, hc, hl => Fr.refl s hc hl
+  | p :: ps, done, s, hc, hl => by
+    unfold tnLoop
+    simp only []
+    split
+    · exact tnLoop_fr hwf hC x ev ts ps done s hc hl
+    · rename_i hcond
+      have hx : p ∉ s.exited := fun hm => hcond (Or.inr (Or.inr (by
+        have : cfg.root.pre ++ p = p := List.nil_append p
+        rw [this]; exact hm)))
+      split
+      · exact Fr.refl s hc hl
+      · refine Post.bind (nprocess_fr (ts := ts) sub sc cfg hwf hC x p _ s hc hl ncandidates_ok hx) (fun _ h => h) ?_
+        intro _ s1 f1
+        exact Post.mono (tnLoop_fr hwf hC x ev ts ps _ s1 f1.1 f1.2.1) (fun _ _ h => f1.trans h)
+          (fun _ h => f1.trans h)
+
+theorem triggerNested_fr (hwf : cfg.states.WF = true) (hC : NoCmds sc) (x : Ctx) (ev : Nat) (ts : List NTrans) (s : NSt)
+    (hc : ConfOK cfg.states s.conf = true) (hl : s.conf.len = 1) :
+    Post (fun _ s' => Fr cfg ts s s') (fun s' => Fr cfg ts s s') (triggerNested sub sc cfg cfg.root x ev ts s) := by
+  unfold triggerNested
+  split
+  · exact Fr.refl s hc hl
+  · exact Fr.refl s hc hl
+  · split
+    · trivial
+    · refine Post.bind (tnLoop_fr sub sc cfg hwf hC x ev ts _ [] s hc hl) (fun _ h => h) ?_
+      intro dn s1 f1
+      split
+      · exact f1
+      · exact f1.trans (Fr.of_glog f1.1 f1.2.1 rfl (fun _ h => h))
+
+theorem ten_fr (hwf : cfg.states.WF = true) (hC : NoCmds sc) (x : Ctx) (ev : Nat) (hno : cfg.states.noEvents = true)
+    (s : NSt) (hl : s.conf.len = 1) (hc : ConfOK cfg.states s.conf = true) :
+    Post (fun _ s' => Fr cfg ((alookup ev cfg.events).getD []) s s')
+      (fun s' => Fr cfg ((alookup ev cfg.events).getD []) s s') (ten sub sc cfg x ev cfg.root s.conf [] false s) := by
+  obtain ⟨k, v, hkv⟩ := Forest.len_one hl
+  rw [hkv, ten_global_only cfg sub sc x ev hno k v (hkv ▸ hc) s]
+  cases hal : alookup ev cfg.events with
+  | none => exact Fr.refl s hc hl
+  | some ts =>
+    simp only [Option.getD_some]
+    exact Post.bind (triggerNested_fr sub sc cfg hwf hC x ev ts s hc hl) (fun _ h => h) (fun _ _ h => h)
+
+theorem triggerEventBody_fr (hwf : cfg.states.WF = true) (hC : NoCmds sc) (x : Ctx) (ev : Nat)
+    (hno : cfg.states.noEvents = true) (s s' : NSt) (hl : s.conf.len = 1) (hc : ConfOK cfg.states s.conf = true)
+    (h : (triggerEventBody sub sc cfg x ev s).state? = some s') :
+    Fr cfg ((alookup ev cfg.events).getD []) s s' := by
+  have hten := ten_fr sub sc cfg hwf hC x ev hno s hl hc
+  unfold triggerEventBody at h
+  rcases bind_state h with ⟨e, he⟩ | ⟨r, s1, he, h1⟩
+  · exact hten.state (by rw [he]; rfl)
+  · have hs1 := hten.state (s' := s1) (by rw [he]; rfl)
+    rcases bind_state h1 with ⟨e, he2⟩ | ⟨b, s2, he2, h2⟩
+    · have := checkEventResult_state cfg _ ev s1 s' (by rw [he2]; rfl)
+      subst this; exact hs1
+    · have := checkEventResult_state cfg _ ev s1 s2 (by rw [he2]; rfl)
+      subst this
+      simp only [Res.state?, Option.some.injEq] at h2; subst h2
+      exact hs1.trans (Fr.of_glog hs1.1 hs1.2.1 rfl (fun _ h => h))
+
+end
+
+/-- the ghost log grows by a segment in which nothing executes from a state exited earlier in the segment -/
+def Step5 (ts : List NTrans) (s s' : NSt) : Prop :=
+  ∃ seg, s'.glog = s.glog ++ seg ∧ execFresh ts seg [] = true
+
+theorem Step5.wrap {ts : List NTrans} {a b c d : NSt} (e : GEv) (h1 : b.glog = a.glog ++ [e])
+    (he1 : ∀ tr, e ≠ .exec tr) (he2 : ∀ p, e ≠ .exit p) (h2 : Step5 ts b c) (h3 : Quiet c d) : Step5 ts a d := by
+  obtain ⟨s2, e2, p2⟩ := h2
+  obtain ⟨s3, e3, r3⟩ := h3
+  refine ⟨[e] ++ s2 ++ s3, by rw [e3, e2, h1]; simp [List.append_assoc], ?_⟩
+  have hx : exits [e] = [] := by
+    cases e <;> first | rfl | exact absurd rfl (he2 _)
+  have hr : refs [e] = [] := by
+    cases e <;> first | rfl | exact absurd rfl (he1 _)
+  rw [execFresh_append, execFresh_append, execFresh_quiet ts [e] _ hr, hx, List.append_nil, p2,
+    execFresh_quiet ts s3 _ r3]
+  rfl
+
+end Pass2
+
+/-- **P2 for machine-level declarations, both halves**: every transition executes from a state that was active when
+the event began and has not been exited since -/
+theorem C03_P2_global_only (cfg : NCfg) (hwf : cfg.states.WF = true) (sub : NSub) (sc : Script)
+    (hR : NoRaise sc) (hC : NoCmds sc) (hq : cfg.queued = false) (hno : cfg.states.noEvents = true)
+    (qmax ev : Nat) (s s' : NSt) (hlen : s.conf.len = 1) (hcok : ConfOK cfg.states s.conf = true) (hidle : s.queue = [])
+    (h : (napiTrigger sub sc cfg qmax ev s).state? = some s') :
+    ∃ seg, s'.glog = s.glog ++ seg ∧
+      (∀ p ∈ execSources ((alookup ev cfg.events).getD []) seg, p ∈ s.conf.nodes) ∧
+      execFresh ((alookup ev cfg.events).getD []) seg [] = true := by
+  obtain ⟨seg, e1, hact⟩ := C03_P2_active_at_start cfg sub sc hR hC hq hno qmax ev s s' hlen hcok hidle h
+  suffices hs : Pass2.Step5 ((alookup ev cfg.events).getD []) s s' by
+    obtain ⟨seg5, e5, h5⟩ := hs
+    have : seg5 = seg := List.append_cancel_left (e5.symm.trans e1)
+    subst this
+    exact ⟨seg5, e1, hact, h5⟩
+  unfold napiTrigger at h
+  simp only [] at h
+  generalize hs1 : ((({ s with nextTag := s.nextTag + 1 } : NSt).emit (.api 0 s.nextTag 0 ev)).emitG
+      (.api s.nextTag ev)) = s1 at h
+  have g01 : s1.glog = s.glog ++ [.api s.nextTag ev] := by subst hs1; rfl
+  have hconf : s1.conf = s.conf := by subst hs1; rfl
+  have hqueue : s1.queue = [] := by subst hs1; exact hidle
+  have hmp : nmachineProcess sub sc cfg qmax ev s.nextTag s1 = ntriggerEvent sub sc cfg ⟨0, s.nextTag⟩ ev s1 := by
+    simp [nmachineProcess, hq, hqueue]
+  rw [hmp] at h
+  have key : ∀ s2 s3, (ntriggerEvent sub sc cfg ⟨0, s.nextTag⟩ ev s1).state? = some s2 → Pass.Quiet s2 s3 →
+      Pass2.Step5 ((alookup ev cfg.events).getD []) s s3 := by
+    intro s2 s3 h2 q23
+    obtain ⟨sb, hb, qb⟩ := Pass.ntriggerEvent_body sub sc cfg hC _ ev s1 s2 h2
+    obtain ⟨_, _, _, segb, eb, _, fb⟩ := Pass2.triggerEventBody_fr sub sc cfg hwf hC _ ev hno
+      { s1 with result := none, exited := [] } sb
+      (by show s1.conf.len = 1; rw [hconf]; exact hlen) (by show ConfOK cfg.states s1.conf = true; rw [hconf]; exact hcok) hb
+    have hstep : Pass2.Step5 ((alookup ev cfg.events).getD []) s1 sb := ⟨segb, eb, fb [] (by simp)⟩
+    exact Pass2.Step5.wrap _ g01 (by intro tr h; cases h) (by intro p h; cases h) hstep (qb.trans q23)
+  cases hn : ntriggerEvent sub sc cfg ⟨0, s.nextTag⟩ ev s1 with
+  | oof => rw [hn] at h; simp [Res.state?] at h
+  | ok b s2 =>
+    rw [hn] at h
+    simp only [Res.state?, Option.some.injEq] at h; subst h
+    exact key s2 _ (by rw [hn]; rfl) ⟨[.ret s.nextTag b], rfl, rfl⟩
+  | err e s2 =>
+    rw [hn] at h
+    simp only [Res.state?, Option.some.injEq] at h; subst h
+    exact key s2 _ (by rw [hn]; rfl) ⟨[.raised s.nextTag e], rfl, rfl⟩
 
 
 /-! ### at most one execution from a configuration without active parallel states -/
@@ -890,12 +1541,14 @@ theorem triggerNested_step4 (hC : NoCmds sc) (scope : Scope) (x : Ctx) (ev : Nat
     · simp [Res.state?] at h
     · rcases bind_state h with ⟨e, he⟩ | ⟨a, s1, he, h1⟩
       · exact tnLoop_step4 sub sc cfg hC scope x ev ts _ [] s s' (by rw [he]; rfl)
-      · simp only [Res.state?, Option.some.injEq] at h1; subst h1
-        exact tnLoop_step4 sub sc cfg hC scope x ev ts _ [] s s1 (by rw [he]; rfl)
+      · have h4 := tnLoop_step4 sub sc cfg hC scope x ev ts _ [] s s1 (by rw [he]; rfl)
+        split at h1 <;> (simp only [Res.state?, Option.some.injEq] at h1; subst h1)
+        · exact h4
+        · exact h4.trans (step4_of_quiet (Quiet.of_glog rfl))
 
 theorem ten_step4 (hC : NoCmds sc) (x : Ctx) (ev : Nat) (hno : cfg.states.noEvents = true) (s s' : NSt)
     (hlen : s.conf.len = 1) (hcok : ConfOK cfg.states s.conf = true)
-    (h : (ten sub sc cfg x ev cfg.root s.conf [] s).state? = some s') :
+    (h : (ten sub sc cfg x ev cfg.root s.conf [] false s).state? = some s') :
     Step4 ((alookup ev cfg.events).getD []) s s' := by
   obtain ⟨k, v, hkv⟩ := Forest.len_one hlen
   rw [hkv, ten_global_only cfg sub sc x ev hno k v (hkv ▸ hcok) s] at h
@@ -949,7 +1602,7 @@ theorem napiTrigger_step4 (hC : NoCmds sc) (hq : cfg.queued = false) (hno : cfg.
       Step4 ((alookup ev cfg.events).getD []) s s2 := by
     intro s2 h2
     obtain ⟨sb, hb, qb⟩ := ntriggerEvent_body sub sc cfg hC _ ev s1 s2 h2
-    have hstep := triggerEventBody_step4 sub sc cfg hC _ ev hno { s1 with result := none } sb
+    have hstep := triggerEventBody_step4 sub sc cfg hC _ ev hno { s1 with result := none, exited := [] } sb
       (by show s1.conf.len = 1; rw [hconf]; exact hlen) (by show ConfOK cfg.states s1.conf = true; rw [hconf]; exact hcok) hb
     exact Step4.wrap (q01.trans (Quiet.of_glog rfl)) hstep qb
   cases hn : ntriggerEvent sub sc cfg ⟨0, s.nextTag⟩ ev s1 with
@@ -1091,7 +1744,7 @@ theorem tnLoop_idle (hR : NoRaise sc) (hC : NoCmds sc) (scope : Scope) (x : Ctx)
     · exact tnLoop_idle hR hC scope x ev ts ps done s hgs'
     · rename_i hcond
       have hcne : ncandidates scope.pre ev ts p ≠ [] := by
-        intro h; apply hcond; right; rw [h]; rfl
+        intro h; apply hcond; right; left; rw [h]; rfl
       split
       · rename_i hnone
         have := hgs p (by simp)
@@ -1116,8 +1769,8 @@ theorem tnLoop_idle (hR : NoRaise sc) (hC : NoCmds sc) (scope : Scope) (x : Ctx)
 
 /-- outcome of a pass / of `_trigger_event_nested` that ended normally -/
 def PassOk (ts : List NTrans) (s : NSt) (tmp : Option Bool) (s' : NSt) : Prop :=
-  ∃ offs, Adds ts offs s s' ∧ (∀ o, offs.getLast? = some o → tmp = some o.executed) ∧
-    (offs.getLast? = none → tmp = none ∧ s' = s)
+  ∃ offs, Adds ts offs s s' ∧ (offs ≠ [] → tmp = some (offs.any (·.executed))) ∧
+    (offs = [] → tmp = none ∧ s' = s)
 
 theorem triggerNested_p5 (hR : NoRaise sc) (hC : NoCmds sc) (x : Ctx) (ev : Nat) (ts : List NTrans) (s : NSt)
     (hcok : ConfOK cfg.states s.conf = true) (hres0 : s.result = none) :
@@ -1138,30 +1791,52 @@ theorem triggerNested_p5 (hR : NoRaise sc) (hC : NoCmds sc) (x : Ctx) (ev : Nat)
       obtain ⟨d, kids, hw, _⟩ := ConfOK_walk hcok (hperm.mem_iff.mp hp)
       have hw' : cfg.root.states.walk p = some (d, kids) := hw
       simp [getState, hw']
-    have hidle := tnLoop_idle sub sc cfg hR hC cfg.root x ev ts order [] s hgs
-    have hmain := tnLoop_main sub sc cfg hC cfg.root x ev ts order [] s
-    cases hl : tnLoop sub sc cfg cfg.root x ev ts order [] s with
-    | oof => trivial
-    | err e s1 => rw [hl] at hidle; exact hidle
-    | ok u s1 =>
-      rw [hl] at hidle hmain
-      obtain ⟨offs, ha, _, _, _, hr⟩ := hmain
-      rw [bind_ok]
+    refine Post.bind (Post.and (tnLoop_main sub sc cfg hC cfg.root x ev ts order [] s)
+      (tnLoop_idle sub sc cfg hR hC cfg.root x ev ts order [] s hgs)) (fun _ h => h.2) ?_
+    rintro dn s1 ⟨⟨offs, ha, _, _, _, hres, ⟨ext, hdn, hext⟩, _⟩, hidle⟩
+    rw [List.nil_append] at hdn
+    subst hdn
+    have hnil : offs = [] → s1 = s := by
+      intro ho
+      rcases hidle with h | ⟨g, hne, hg⟩
+      · exact h
+      · have := hg.unique ha
+        rw [ho] at this
+        exact absurd this hne
+    cases hd : dn.isEmpty with
+    | true =>
+      have hany := hext.mp (List.isEmpty_iff.mp hd)
+      simp only [if_true]
       refine ⟨offs, ha, ?_, ?_⟩
-      · intro o ho; rw [hr, ho]
+      · intro hne
+        show s1.result = _
+        rw [hres, hany]
+        cases hl : offs.getLast? with
+        | none => exact absurd (List.getLast?_eq_none_iff.mp hl) hne
+        | some o =>
+          have := (List.any_eq_false.mp hany) o (List.mem_of_getLast? hl)
+          simp only [Bool.not_eq_true] at this
+          simp only [this]
       · intro ho
-        rw [ho] at hr
-        refine ⟨hr.trans hres0, ?_⟩
-        rcases hidle with h | ⟨g, hne, hg⟩
-        · exact h
-        · have := hg.unique ha
-          rw [List.getLast?_eq_none_iff.mp ho] at this
-          exact absurd this hne
+        refine ⟨?_, hnil ho⟩
+        show s1.result = none
+        rw [hres, ho]; exact hres0
+    | false =>
+      have hany : offs.any (·.executed) = true := by
+        cases h : offs.any (·.executed) with
+        | true => rfl
+        | false =>
+          have := hext.mpr h
+          rw [this] at hd; cases hd
+      simp only [Bool.false_eq_true, if_false]
+      refine ⟨offs, ha.sil_r (Adds.of_glog rfl), ?_, ?_⟩
+      · intro _; rw [hany]
+      · intro ho; rw [ho] at hany; cases hany
 
 theorem ten_p5 (hR : NoRaise sc) (hC : NoCmds sc) (x : Ctx) (ev : Nat) (hno : cfg.states.noEvents = true) (s : NSt)
     (hlen : s.conf.len = 1) (hcok : ConfOK cfg.states s.conf = true) (hres0 : s.result = none) :
     Post (fun r s' => PassOk ((alookup ev cfg.events).getD []) s (summarize r) s')
-      (NE ((alookup ev cfg.events).getD []) s) (ten sub sc cfg x ev cfg.root s.conf [] s) := by
+      (NE ((alookup ev cfg.events).getD []) s) (ten sub sc cfg x ev cfg.root s.conf [] false s) := by
   obtain ⟨k, v, hkv⟩ := Forest.len_one hlen
   rw [hkv, ten_global_only cfg sub sc x ev hno k v (hkv ▸ hcok) s]
   cases hal : alookup ev cfg.events with
@@ -1176,13 +1851,13 @@ theorem ten_p5 (hR : NoRaise sc) (hC : NoCmds sc) (x : Ctx) (ev : Nat) (hno : cf
 
 /-- outcome of the `try:` part, normal end -/
 def BodyOk (cfg : NCfg) (ev : Nat) (ts : List NTrans) (s : NSt) (b : Bool) (s' : NSt) : Prop :=
-  ∃ offs, Adds ts offs s s' ∧ (∀ o, offs.getLast? = some o → b = o.executed) ∧
-    (offs.getLast? = none → cerLoop cfg ev (buildStateList [] s.conf).listify = .ok b ∧ s'.conf = s.conf)
+  ∃ offs, Adds ts offs s s' ∧ (offs ≠ [] → b = offs.any (·.executed)) ∧
+    (offs = [] → cerLoop cfg ev (buildStateList [] s.conf).flat = .ok b ∧ s'.conf = s.conf)
 
 /-- outcome of the `try:` part, exception -/
 def BodyErr (cfg : NCfg) (ev : Nat) (ts : List NTrans) (s : NSt) (e : Exc) (s' : NSt) : Prop :=
   ∃ offs, Adds ts offs s s' ∧
-    (offs = [] → cerLoop cfg ev (buildStateList [] s.conf).listify = .err e ∧ s'.conf = s.conf)
+    (offs = [] → cerLoop cfg ev (buildStateList [] s.conf).flat = .err e ∧ s'.conf = s.conf)
 
 theorem triggerEventBody_p5 (hR : NoRaise sc) (hC : NoCmds sc) (x : Ctx) (ev : Nat) (hno : cfg.states.noEvents = true)
     (s : NSt) (hlen : s.conf.len = 1) (hcok : ConfOK cfg.states s.conf = true) (hres0 : s.result = none) :
@@ -1190,7 +1865,7 @@ theorem triggerEventBody_p5 (hR : NoRaise sc) (hC : NoCmds sc) (x : Ctx) (ev : N
     (∀ e s', triggerEventBody sub sc cfg x ev s = .err e s' → BodyErr cfg ev ((alookup ev cfg.events).getD []) s e s') := by
   have hten := ten_p5 sub sc cfg hR hC x ev hno s hlen hcok hres0
   unfold triggerEventBody
-  cases ht : ten sub sc cfg x ev cfg.root s.conf [] s with
+  cases ht : ten sub sc cfg x ev cfg.root s.conf [] false s with
   | oof => constructor <;> intro _ _ h <;> simp [bind_oof] at h
   | err e1 s1 =>
     rw [ht] at hten
@@ -1205,26 +1880,12 @@ theorem triggerEventBody_p5 (hR : NoRaise sc) (hC : NoCmds sc) (x : Ctx) (ev : N
     rw [ht] at hten
     obtain ⟨offs, ha, h1, h2⟩ := hten
     rw [bind_ok]
-    cases hl : offs.getLast? with
-    | some o =>
-      have hs := h1 o hl
-      rw [hs]
-      simp only [checkEventResult, bind_ok]
-      constructor
-      · intro b s' h
-        simp only [Res.ok.injEq] at h
-        obtain ⟨rfl, rfl⟩ := h
-        refine ⟨offs, ha.sil_r (Adds.of_glog rfl), ?_, ?_⟩
-        · intro o' ho'; rw [hl] at ho'; cases ho'; rfl
-        · intro hn; rw [hl] at hn; cases hn
-      · intro e s' h; cases h
-    | none =>
-      obtain ⟨hs, rfl⟩ := h2 hl
-      have hoffs : offs = [] := List.getLast?_eq_none_iff.mp hl
+    by_cases hoffs : offs = []
+    · obtain ⟨hs, rfl⟩ := h2 hoffs
       subst hoffs
       rw [hs]
       simp only [checkEventResult]
-      cases hcer : cerLoop cfg ev (buildStateList [] s1.conf).listify with
+      cases hcer : cerLoop cfg ev (buildStateList [] s1.conf).flat with
       | oof => constructor <;> intro _ _ h <;> simp [bind_oof] at h
       | ok b1 =>
         simp only [bind_ok]
@@ -1242,6 +1903,15 @@ theorem triggerEventBody_p5 (hR : NoRaise sc) (hC : NoCmds sc) (x : Ctx) (ev : N
           simp only [Res.err.injEq] at h
           obtain ⟨rfl, rfl⟩ := h
           exact ⟨[], Adds.refl _, fun _ => ⟨hcer, rfl⟩⟩
+    · have hs := h1 hoffs
+      rw [hs]
+      simp only [checkEventResult, bind_ok]
+      constructor
+      · intro b s' h
+        simp only [Res.ok.injEq] at h
+        obtain ⟨rfl, rfl⟩ := h
+        exact ⟨offs, ha.sil_r (Adds.of_glog rfl), fun _ => rfl, fun hn => absurd hn hoffs⟩
+      · intro e s' h; cases h
 
 theorem nfinalize_sil (hC : NoCmds sc) (x : Ctx) (s s' : NSt) (h : nfinalize sub sc cfg x s = some s') :
     Adds ts [] s s' ∧ s'.conf = s.conf := by
@@ -1260,14 +1930,14 @@ theorem nfinalize_sil (hC : NoCmds sc) (x : Ctx) (s s' : NSt) (h : nfinalize sub
 /-- without `on_exception` handlers `_trigger_event` passes the outcome of its `try:` part on, after `finally:` -/
 theorem ntriggerEvent_p5 (hC : NoCmds sc) (hex : cfg.onException = []) (x : Ctx) (ev : Nat) (s : NSt) :
     (∀ b s'', ntriggerEvent sub sc cfg x ev s = .ok b s'' →
-      ∃ s', triggerEventBody sub sc cfg x ev { s with result := none } = .ok b s' ∧ Adds ts [] s' s'' ∧
+      ∃ s', triggerEventBody sub sc cfg x ev { s with result := none, exited := [] } = .ok b s' ∧ Adds ts [] s' s'' ∧
         s''.conf = s'.conf) ∧
     (∀ e s'', ntriggerEvent sub sc cfg x ev s = .err e s'' →
-      ∃ s', triggerEventBody sub sc cfg x ev { s with result := none } = .err e s' ∧ Adds ts [] s' s'' ∧
+      ∃ s', triggerEventBody sub sc cfg x ev { s with result := none, exited := [] } = .err e s' ∧ Adds ts [] s' s'' ∧
         s''.conf = s'.conf) := by
   unfold ntriggerEvent
   simp only [hex]
-  cases hb : triggerEventBody sub sc cfg x ev { s with result := none } with
+  cases hb : triggerEventBody sub sc cfg x ev { s with result := none, exited := [] } with
   | oof => constructor <;> intro _ _ h <;> cases h
   | ok b1 s1 =>
     simp only []
@@ -1316,12 +1986,12 @@ theorem napiTrigger_p5 (hR : NoRaise sc) (hC : NoCmds sc)
   have hmp : nmachineProcess sub sc cfg qmax ev s.nextTag s1 = ntriggerEvent sub sc cfg ⟨0, s.nextTag⟩ ev s1 := by
     simp [nmachineProcess, hq, hqueue]
   rw [hmp]
-  have hconf0 : ({ s1 with result := none } : NSt).conf = s.conf := hconf
-  have hbody := triggerEventBody_p5 sub sc cfg hR hC ⟨0, s.nextTag⟩ ev hno { s1 with result := none }
+  have hconf0 : ({ s1 with result := none, exited := [] } : NSt).conf = s.conf := hconf
+  have hbody := triggerEventBody_p5 sub sc cfg hR hC ⟨0, s.nextTag⟩ ev hno { s1 with result := none, exited := [] }
     (by rw [hconf0]; exact hlen) (by rw [hconf0]; exact hcok) rfl
   rw [hts] at hbody
   have hte := ntriggerEvent_p5 (ts := ts) sub sc cfg hC hex ⟨0, s.nextTag⟩ ev s1
-  have q10 : Adds ts [] s ({ s1 with result := none } : NSt) := q01.sil_r (Adds.of_glog rfl)
+  have q10 : Adds ts [] s ({ s1 with result := none, exited := [] } : NSt) := q01.sil_r (Adds.of_glog rfl)
   cases hn : ntriggerEvent sub sc cfg ⟨0, s.nextTag⟩ ev s1 with
   | oof => constructor <;> intro _ _ h <;> cases h
   | ok b2 s2 =>
@@ -1332,7 +2002,8 @@ theorem napiTrigger_p5 (hR : NoRaise sc) (hC : NoCmds sc)
       obtain ⟨rfl, rfl⟩ := h
       obtain ⟨sb, hb, q, hc⟩ := hte.1 b2 s2 hn
       obtain ⟨offs, ha, h1, h2⟩ := hbody.1 b2 sb hb
-      have qr : Adds ts [] s2 ({ ((s2.emit (.ret s.nextTag b2)).emitG (.ret s.nextTag b2)) with result := s.result } : NSt) :=
+      have qr : Adds ts [] s2 ({ ((s2.emit (.ret s.nextTag b2)).emitG (.ret s.nextTag b2)) with
+          result := s.result, exited := s.exited } : NSt) :=
         ⟨[.ret s.nextTag b2], rfl, by intro acc; simp [sOffers]⟩
       refine ⟨offs, ((q10.sil_l ha).sil_r q).sil_r qr, h1, ?_⟩
       intro hl
@@ -1349,7 +2020,8 @@ theorem napiTrigger_p5 (hR : NoRaise sc) (hC : NoCmds sc)
       obtain ⟨rfl, rfl⟩ := h
       obtain ⟨sb, hb, q, hc⟩ := hte.2 e2 s2 hn
       obtain ⟨offs, ha, h2⟩ := hbody.2 e2 sb hb
-      have qr : Adds ts [] s2 ({ ((s2.emit (.raised s.nextTag e2)).emitG (.raised s.nextTag e2)) with result := s.result } : NSt) :=
+      have qr : Adds ts [] s2 ({ ((s2.emit (.raised s.nextTag e2)).emitG (.raised s.nextTag e2)) with
+          result := s.result, exited := s.exited } : NSt) :=
         ⟨[.raised s.nextTag e2], rfl, by intro acc; simp [sOffers]⟩
       refine ⟨offs, ((q10.sil_l ha).sil_r q).sil_r qr, ?_⟩
       intro hl
@@ -1362,31 +2034,30 @@ end
 end Pass2
 
 /-- **P5 for machine-level declarations**: what one trigger call on an unqueued machine returns.  If the event was
-offered to some state, the call returns whether the LAST offered state executed a transition (so "True iff some
-transition executed" holds exactly when no state is offered and blocked after an execution); if it was offered to
-nobody, the outcome is what `_check_event_result` decides from the state value (`cerLoop`): False / MachineError /
-AttributeError (or ValueError on nested lists) -/
+offered to some state, the call returns True iff some transition executed; if it was offered to nobody, the outcome
+is what `_check_event_result` decides from the (flattened) state value (`cerLoop`): False / MachineError /
+AttributeError -/
 theorem C03_P5_global_only (cfg : NCfg) (sub : NSub) (sc : Script) (hR : NoRaise sc) (hC : NoCmds sc)
     (hq : cfg.queued = false) (hno : cfg.states.noEvents = true) (hex : cfg.onException = [])
     (qmax ev : Nat) (s : NSt) (hlen : s.conf.len = 1) (hcok : ConfOK cfg.states s.conf = true) (hidle : s.queue = []) :
     (∀ b s', napiTrigger sub sc cfg qmax ev s = .ok b s' →
       ∃ seg, s'.glog = s.glog ++ seg ∧
-        (match (sOffers ((alookup ev cfg.events).getD []) seg []).getLast? with
-          | some o => b = o.executed
-          | none => cerLoop cfg ev (buildStateList [] s.conf).listify = .ok b ∧ s'.conf = s.conf)) ∧
+        (if (sOffers ((alookup ev cfg.events).getD []) seg []) = [] then
+           cerLoop cfg ev (buildStateList [] s.conf).flat = .ok b ∧ s'.conf = s.conf
+         else b = (sOffers ((alookup ev cfg.events).getD []) seg []).any (·.executed))) ∧
     (∀ e s', napiTrigger sub sc cfg qmax ev s = .err e s' →
       ∃ seg, s'.glog = s.glog ++ seg ∧
         ((sOffers ((alookup ev cfg.events).getD []) seg []) = [] →
-          cerLoop cfg ev (buildStateList [] s.conf).listify = .err e ∧ s'.conf = s.conf)) := by
+          cerLoop cfg ev (buildStateList [] s.conf).flat = .err e ∧ s'.conf = s.conf)) := by
   obtain ⟨hok, herr⟩ := Pass2.napiTrigger_p5 sub sc cfg hR hC hq hno hex qmax ev s hlen hcok hidle
   constructor
   · intro b s' h
     obtain ⟨offs, ⟨seg, e1, hs⟩, h1, h2⟩ := hok b s' h
     refine ⟨seg, e1, ?_⟩
     rw [hs [], List.nil_append]
-    cases hl : offs.getLast? with
-    | some o => exact h1 o hl
-    | none => exact h2 hl
+    by_cases ho : offs = []
+    · rw [if_pos ho]; exact h2 ho
+    · rw [if_neg ho]; exact h1 ho
   · intro e s' h
     obtain ⟨offs, ⟨seg, e1, hs⟩, h2⟩ := herr e s' h
     refine ⟨seg, e1, ?_⟩
